@@ -4,7 +4,7 @@
 (* generated from Pager.tla) and Return (NextPage / PrevPage of the real   *)
 (* call decoded to page indexes and lexical link facts).                   *)
 (***************************************************************************)
-EXTENDS Pager, IOUtils
+EXTENDS Pager, PrevNext, IOUtils
 
 Trace == ndJsonDeserialize(IOEnv.TRACE_FILE)
 
@@ -43,8 +43,35 @@ Class(name, o) ==
                                ELSE "not-an-anchor-target")
     ELSE c.algo \o ":" \o c.fam
 
+\* ---- fidelity of spec/PrevNext.tla: the score the real code gave to every candidate link of a conventional
+\* pager equals Score on the facts of PrevNext!ConvLinks, and the link it chose is the one Choose picks
+ModelLink(links, s) ==
+    LET S == {i \in 1..Len(links) : links[i].target = s.target
+                                     /\ (CASE s.kind = "num" -> links[i].tnum > 0 [] s.kind = "next" -> links[i].nextT
+                                            [] s.kind = "prev" -> links[i].prevT [] OTHER -> FALSE)}
+    IN  IF S = {} THEN 0 ELSE CHOOSE i \in S : TRUE
+ScoreDrift(o) ==
+    IF c.kind # "conv" \/ c.algo # "prevnext" \/ o.err \/ c.fam \notin Fams THEN << >>
+    ELSE LET links == ConvLinks(c.fam, c.n, c.k, c.labels, c.numbered)
+             bad1 == {j \in 1..Len(o.scores) :
+                         LET i == ModelLink(links, o.scores[j])
+                         IN  i = 0 \/ Score(links[i], o.scores[j].next, c.k) # o.scores[j].score}
+             cn == Choose(links, TRUE, c.k)
+             cp == Choose(links, FALSE, c.k)
+             want == [next |-> IF cn = 0 THEN 0 ELSE links[cn].target, prev |-> IF cp = 0 THEN 0 ELSE links[cp].target]
+         IN  IF bad1 # {}
+             THEN LET j == CHOOSE x \in bad1 : \A y \in bad1 : x <= y
+                      i == ModelLink(links, o.scores[j])
+                  IN  <<[what |-> "score of a link differs from PrevNext.tla", logged |-> o.scores[j],
+                         model |-> IF i = 0 THEN -999 ELSE Score(links[i], o.scores[j].next, c.k)]>>
+             ELSE IF want # [next |-> o.next, prev |-> o.prev]
+             THEN <<[what |-> "chosen links differ from PrevNext.tla", logged |-> [next |-> o.next, prev |-> o.prev], model |-> want]>>
+             ELSE << >>
+
 Return == /\ IsEvent("Return") /\ pc = "called" /\ Trace[l].run = run
           /\ pc' = "returned"
+          /\ \A x \in 1..Len(ScoreDrift(Trace[l].obs)) :
+                PrintT(<<"@@DRIFT", ToJson([run |-> run, c |-> c, d |-> ScoreDrift(Trace[l].obs)[x]])>>)
           /\ bad' = {n \in Failed(Trace[l].obs) : TRUE}
           /\ \A name \in bad' :
                 PrintT(<<"@@BAD", ToJson([run |-> run, inv |-> name, class |-> Class(name, Trace[l].obs)])>>)
